@@ -113,5 +113,6 @@ func constExactRule(w *World, r *Result, only func(rel string) bool) (printers, 
 			return true
 		})
 	}
+	constFitsRule(w, r, only)
 	return printers, uses
 }
